@@ -4,6 +4,7 @@
 mod checkh;
 mod graph;
 mod lexh;
+mod marshalh;
 mod parse;
 mod pathnorm;
 mod pred;
@@ -21,6 +22,8 @@ fn main() {
         "tsort" => graph::run_tsort(&rest),
         "pathnorm" => pathnorm::run(&rest),
         "pred" => pred::run(&rest),
+        "marshal" => marshalh::run_marshal(&rest),
+        "pycread" => marshalh::run_pycread(&rest),
         "repl-frame" => replh::run_frame(&rest),
         "repl-session" => replh::run_session(&rest),
         "check" => checkh::run(&rest),
